@@ -440,6 +440,96 @@ impl<T: Elem + SatisfyTraits<Tr>, M: MX, Tr: TrX + ?Sized> World<T, M, Tr> {
     }
 }
 
+pub const N_ADAPT: u8 = 15;
+
+#[derive(Debug, Clone, PartialEq)]
+pub enum AObs<X> { Item(X), Nothing, Count(usize) }
+
+/// Apply std adaptor `op` to an iterator. The same function runs on the library's iterator and on std's (`vec::Drain`, slice iter).
+pub fn adapt<I: DoubleEndedIterator + ExactSizeIterator, X>(it: &mut I, op: u8, mut f: impl FnMut(I::Item) -> X) -> Vec<AObs<X>> {
+    let mut out = { let _w = elem::WindowOff::new(); Vec::with_capacity(16) };
+    let mut one = |o: Option<I::Item>, out: &mut Vec<AObs<X>>| match o { Some(x) => out.push(AObs::Item(f(x))), None => out.push(AObs::Nothing) };
+    match op {
+        0 | 1 | 2 => { let x = it.nth(op as usize); one(x, &mut out); }
+        3 | 4 => { let x = it.nth_back(op as usize - 3); one(x, &mut out); }
+        5 => { let x = it.by_ref().skip(1).next(); one(x, &mut out); }
+        6 => { for x in it.by_ref().step_by(2) { one(Some(x), &mut out); } }
+        7 => { for x in it.by_ref().rev() { one(Some(x), &mut out); } }
+        8 => { for x in it.by_ref().take(1) { one(Some(x), &mut out); } }
+        9 => { let x = it.by_ref().last(); one(x, &mut out); }
+        10 => { let n = it.by_ref().count(); out.push(AObs::Count(n)); }
+        11 => { for x in it.by_ref().skip(2) { one(Some(x), &mut out); } }
+        12 => { let x = it.nth(1); one(x, &mut out); let y = it.nth_back(0); one(y, &mut out); while let Some(z) = it.next() { one(Some(z), &mut out); } }
+        13 => { let x = it.by_ref().rev().skip(1).next(); one(x, &mut out); }
+        _ => { let x = it.nth(1); one(x, &mut out); out.push(AObs::Count(it.len())); let y = it.next_back(); one(y, &mut out); }
+    }
+    out.push(AObs::Count(it.len()));
+    out
+}
+
+fn cmp_adapt(real: &[AObs<u16>], model: &[AObs<Mv>], zst: bool) -> Option<String> {
+    if real.len() != model.len() { return Some(format!("{} observations, model {}", real.len(), model.len())); }
+    for (i, (r, m)) in real.iter().zip(model).enumerate() {
+        let ok = match (r, m) {
+            (AObs::Item(id), AObs::Item(mv)) => zst || mv_match(*mv, *id),
+            (AObs::Nothing, AObs::Nothing) => true,
+            (AObs::Count(a), AObs::Count(b)) => a == b,
+            _ => false,
+        };
+        if !ok { return Some(format!("observation {i}: {r:?}, std gives {m:?}")); }
+    }
+    None
+}
+
+impl<T: Elem + SatisfyTraits<Tr>, M: MX, Tr: TrX + ?Sized> World<T, M, Tr> {
+    /// drain / splice consumed through a std iterator adaptor, compared with the same adaptor on `Vec::drain` / `Vec::splice`
+    pub fn do_range_adapt(&mut self, api: Api, a: usize, b: usize, op: u8, splice_rn: Option<usize>, out: &mut Out) {
+        let len = self.ma.len();
+        if !range_valid(a, b, len) { out.outcome.push_str("n/a"); return; }
+        if let Some(rn) = splice_rn { if !M::RESIZABLE && len - (b - a) + rn > self.a.capacity() { out.outcome.push_str("n/a"); return; } }
+        let va = &mut self.a;
+        let id_of = |v: T| { let id = v.id(); let _w = elem::WindowOff::new(); drop(v); id };
+        let mut repl_model: Vec<Mv> = Vec::new();
+        let r: Result<Vec<AObs<u16>>, Caught> = match (api, splice_rn) {
+            (Api::Erased, None) => guarded(|| { let mut d = va.drain(a..b); let o = adapt(&mut d, op, |e| id_of(e.downcast::<T>().unwrap())); drop(d); o }),
+            (Api::Typed, None) => guarded(|| { let mut t = va.downcast_mut::<T>().unwrap(); let mut d = t.drain(a..b); let o = adapt(&mut d, op, id_of); drop(d); o }),
+            (Api::Erased, Some(rn)) => { let (it, ids) = ReplT::<T>::new(rn, 0); repl_model = ids;
+                guarded(|| { let mut d = va.splice(a..b, it.map(AnyValueWrapper::new)); let o = adapt(&mut d, op, |e| id_of(e.downcast::<T>().unwrap())); drop(d); o }) }
+            (Api::Typed, Some(rn)) => { let (it, ids) = ReplT::<T>::new(rn, 0); repl_model = ids;
+                guarded(|| { let mut t = va.downcast_mut::<T>().unwrap(); let mut d = t.splice(a..b, it); let o = adapt(&mut d, op, id_of); drop(d); o }) }
+        };
+        let model = { let mut d = self.ma.splice(a..b, repl_model.iter().cloned()); let o = adapt(&mut d, op, |m| m); drop(d); o };
+        match r {
+            Err(Caught::Injected) => out.faulted = true,
+            Err(Caught::Panic(m)) => { out.fail(Class::Iter, "unexpected-panic", format!("adaptor {op} on drain/splice({a}..{b}) panicked: {m}")); out.faulted = true; }
+            Ok(real) => {
+                if let Some(d) = cmp_adapt(&real, &model, T::SIZE == 0) { out.fail(Class::Iter, "adaptor-mismatch", format!("adaptor {op} on {}({a}..{b}) of len {len}: {d}", if splice_rn.is_some() { "splice" } else { "drain" })); }
+                out.outcome.push_str("ok");
+            }
+        }
+    }
+
+    /// iter / iter_mut consumed through a std adaptor, compared with the slice iterator of the model
+    pub fn do_iter_adapt(&mut self, api: Api, kind: IterKind, op: u8, out: &mut Out) {
+        let va = &mut self.a;
+        let r: Result<Vec<AObs<u16>>, Caught> = guarded(|| match (api, kind) {
+            (Api::Erased, IterKind::Iter) | (Api::Erased, IterKind::IntoIterRef) => { let mut it = va.iter(); adapt(&mut it, op, |e| e.downcast_ref::<T>().unwrap().id()) }
+            (Api::Erased, _) => { let mut it = va.iter_mut(); adapt(&mut it, op, |mut e| e.downcast_mut::<T>().unwrap().id()) }
+            (Api::Typed, IterKind::Iter) | (Api::Typed, IterKind::IntoIterRef) => { let t = va.downcast_ref::<T>().unwrap(); let mut it = t.iter(); adapt(&mut it, op, |e| e.id()) }
+            (Api::Typed, _) => { let mut t = va.downcast_mut::<T>().unwrap(); let mut it = t.iter_mut(); adapt(&mut it, op, |e| e.id()) }
+        });
+        let model = { let mut it = self.ma.iter(); adapt(&mut it, op, |m| *m) };
+        match r {
+            Err(Caught::Injected) => out.faulted = true,
+            Err(Caught::Panic(m)) => out.fail(Class::Iter, "unexpected-panic", format!("adaptor {op} on iter panicked: {m}")),
+            Ok(real) => {
+                if let Some(d) = cmp_adapt(&real, &model, T::SIZE == 0) { out.fail(Class::Iter, "adaptor-mismatch", format!("adaptor {op} on {kind:?}: {d}")); }
+                out.outcome.push_str("ok");
+            }
+        }
+    }
+}
+
 /// generic continuation used by the lazy-clone replacement source
 pub trait SpliceRun<Tr: ?Sized + TrX, M: MemBuilder> {
     fn run<I: ExactSizeIterator>(self, a: &mut AnyVec<Tr, M>, it: I) -> Vec<StepObs> where I::Item: AnyValue;
